@@ -17,16 +17,22 @@ import (
 // symbolic keys would fork 256 ways per key). Values are 32 symbolic bytes (the stored leaf format
 // of newSubTree fixes the value width to hashSize; every caller stores hashes). SHA-256 is the engine's
 // collision-free uninterpreted function, so "root ≡ reference root" reads "for all values".
+//
+// Engine options these harnesses need (binary bin/gosym-c10, see engine/_c10build): gor=N — one Update
+// spawns two goroutines per level it descends (34 for a single insert next to an existing leaf), the
+// default limit is 16 per path; hashdepth=N — node hashes nest 8 levels per subtree (17 and more from
+// the root to a leaf), the default depth of the collision-freeness facts is 6, below which two
+// different trees may look equal to the solver (spurious counterexamples, not reproduced natively).
 
-// zzBuildPool: keys chosen for structure.
+// zzBuildPool: keys chosen for structure; P of them are used, in this order.
 //
 //	0000 / 0001  same lower subtree, adjacent, differ in the LAST bit (leaves at depth 8 of the lower subtree)
-//	0080         same lower subtree, differs from 0000 in the first bit of the second byte
 //	8000         differs from the others in the FIRST bit (depth 1 of the top subtree)
+//	0080         same lower subtree as 0000/0001, differs from them in the first bit of the second byte
 //	0100         neighbouring bin of the top subtree (differs from 0000 in the last bit of the first byte)
 //	ffff         last bin, last slot
 func zzBuildPool() [][]byte {
-	return [][]byte{{0x00, 0x00}, {0x00, 0x01}, {0x00, 0x80}, {0x80, 0x00}, {0x01, 0x00}, {0xff, 0xff}}
+	return [][]byte{{0x00, 0x00}, {0x00, 0x01}, {0x80, 0x00}, {0x00, 0x80}, {0x01, 0x00}, {0xff, 0xff}}
 }
 
 const zzBuildKeyLen = 2
@@ -93,121 +99,155 @@ func zzRefSMTRoot(keys, vals [][]byte, d int) []byte {
 
 // ---- the state of a history: the map (per pool key: stored value or nil), the trie, the database ----
 
+// zzOp is one operation of a batch. kind 0 = set a fresh value (insert or overwrite), 1 = delete (empty
+// value; the key may be absent: "delete of an absent key"), 2 = set the value that is stored already
+// (present keys only).
+type zzOp struct{ key, kind int }
+
 type zzBuild struct {
 	t    *zzT
 	pool [][]byte
 	cur  [][]byte // cur[i]: value stored under pool[i], nil = absent
 	db   *zzMemDB
 	tr   *trie
-	nval int
-	all  [][]byte // every value issued so far
+	vals *zzValues
 }
 
-func zzNewBuild(t *zzT) *zzBuild {
-	zzPinEmptyHash(t)
-	pool := zzBuildPool()[:t.Param("P", 4)]
-	return &zzBuild{t: t, pool: pool, cur: make([][]byte, len(pool)), db: &zzMemDB{}, tr: NewTrie(nil, zzBuildKeyLen)}
+// zzValues issues symbolic values (32 bytes each). TAG=1 (quick tier) makes the first byte a concrete
+// serial number, so that distinct values differ syntactically and every comparison of node hashes is
+// decided without the solver; TAG=0 leaves all 32 bytes symbolic (a "fresh" value may then coincide
+// with any earlier one). "The value written equals the stored one" is also the explicit kind 2.
+type zzValues struct {
+	t *zzT
+	n int
 }
 
-// value returns a fresh symbolic value (32 bytes). With DISTINCT=1 it differs from every value issued
-// before (the case "the value written equals the stored one" is the explicit operation kind 2).
-func (s *zzBuild) value() []byte {
-	v := s.t.Bytes(s.t.Name("value", s.nval), hashSize)
-	s.nval++
-	if s.t.Param("DISTINCT", 0) == 1 {
-		for _, o := range s.all {
-			s.t.Assume(!bytes.Equal(v, o))
-		}
+func (z *zzValues) fresh() []byte {
+	v := z.t.Bytes(z.t.Name("value", z.n), hashSize)
+	if z.t.Param("TAG", 0) == 1 {
+		v[0] = byte(z.n)
 	}
-	s.all = append(s.all, v)
+	z.n++
 	return v
 }
 
-// refRoot: reference root of the current map.
-func (s *zzBuild) refRoot() []byte { return zzRefRootOf(s.pool, s.cur) }
+func zzPoolOf(t *zzT) [][]byte { return zzBuildPool()[:t.Param("P", 4)] }
 
-func zzRefRootOf(pool, cur [][]byte) []byte {
+func zzNewBuild(t *zzT, vals *zzValues) *zzBuild {
+	pool := zzPoolOf(t)
+	return &zzBuild{t: t, pool: pool, cur: make([][]byte, len(pool)), db: &zzMemDB{}, tr: NewTrie(nil, zzBuildKeyLen), vals: vals}
+}
+
+// refRoot: reference root of the current map.
+func (s *zzBuild) refRoot() []byte {
 	var ks, vs [][]byte
-	for i, v := range cur {
+	for i, v := range s.cur {
 		if v != nil {
-			ks, vs = append(ks, pool[i]), append(vs, v)
+			ks, vs = append(ks, s.pool[i]), append(vs, v)
 		}
 	}
 	return zzRefSMTRoot(ks, vs, 0)
 }
 
-// apply records a batch in the map (keys of a batch are distinct).
-func (s *zzBuild) apply(idx []int, vals [][]byte) {
-	for j, i := range idx {
-		if len(vals[j]) == 0 {
-			s.cur[i] = nil
-		} else {
-			s.cur[i] = vals[j]
-		}
-	}
-}
-
-func (s *zzBuild) keysOf(idx []int) [][]byte {
-	keys := make([][]byte, len(idx))
-	for j, i := range idx {
-		keys[j] = append([]byte{}, s.pool[i]...)
-	}
-	return keys
-}
-
-// update runs one batch through the real trie and records it in the map.
-func (s *zzBuild) update(idx []int, vals [][]byte) ([]byte, error) {
-	root, err := s.tr.Update(s.db, s.keysOf(idx), vals)
-	s.apply(idx, vals)
-	return root, err
-}
-
-// initial: the first batch of every history inserts an arbitrary subset of the pool (chosen by a bit
-// mask, possibly empty) with fresh values in pool order. Returns false when Update failed.
-func (s *zzBuild) initial() bool {
-	mask := s.t.Range("initial.subset", 0, (1<<uint(len(s.pool)))-1)
-	var idx []int
-	var vals [][]byte
-	for i := range s.pool {
-		if mask>>uint(i)&1 == 1 {
-			idx, vals = append(idx, i), append(vals, s.value())
-		}
-	}
-	root, err := s.update(idx, vals)
-	s.t.Assert(err == nil && bytes.Equal(root, s.refRoot()), "root after the first batch (any subset of the pool, from the empty trie) equals the LIP-0039 root; empty map gives the empty hash")
-	return err == nil
-}
-
-// batch chooses n operations on distinct pool keys. Operation kinds: 0 = set a fresh value (insert or
-// overwrite), 1 = delete (empty value; the key may be absent), 2 = set the value that is stored already
-// (only for present keys).
-func (s *zzBuild) batch(name string, n int) (idx []int, vals [][]byte) {
-	t := s.t
-	for j := 0; j < n; j++ {
-		i := t.Choice(t.Name(name+".key", j), len(s.pool))
-		for _, o := range idx {
-			t.Assume(o != i)
-		}
+// materialise turns operations into the key and value lists of one Update call.
+func (s *zzBuild) materialise(ops []zzOp) (keys, vals [][]byte) {
+	for _, op := range ops {
 		var v []byte
-		switch t.Choice(t.Name(name+".kind", j), 3) {
+		switch op.kind {
 		case 0:
-			v = s.value()
+			v = s.vals.fresh()
 		case 1:
 			v = []byte{}
 		case 2:
-			t.Assume(s.cur[i] != nil)
-			v = append([]byte{}, s.cur[i]...)
+			v = append([]byte{}, s.cur[op.key]...)
 		}
-		idx, vals = append(idx, i), append(vals, v)
+		keys, vals = append(keys, append([]byte{}, s.pool[op.key]...)), append(vals, v)
 	}
-	return idx, vals
+	return keys, vals
 }
 
-// history runs batches after the initial one until T operations are spent: each batch has 1..K
-// operations; after every batch the root equals the reference root of the map at that moment.
-// Returns false when an Update failed.
-func (s *zzBuild) history(T, K int) bool {
-	t := s.t
+// record applies a batch to the map (the keys of a batch are distinct).
+func (s *zzBuild) record(ops []zzOp, vals [][]byte) {
+	for j, op := range ops {
+		if len(vals[j]) == 0 {
+			s.cur[op.key] = nil
+		} else {
+			s.cur[op.key] = vals[j]
+		}
+	}
+}
+
+// update runs one batch through the real trie and records it in the map.
+func (s *zzBuild) update(ops []zzOp) ([]byte, error) {
+	keys, vals := s.materialise(ops)
+	root, err := s.tr.Update(s.db, keys, vals)
+	s.record(ops, vals)
+	return root, err
+}
+
+// setValues runs one batch "pool[idx[j]] := vals[j]" (given values) and records it.
+func (s *zzBuild) setValues(idx []int, vals [][]byte) ([]byte, error) {
+	ops := make([]zzOp, len(idx))
+	keys := make([][]byte, len(idx))
+	for j, i := range idx {
+		ops[j] = zzOp{key: i}
+		keys[j] = append([]byte{}, s.pool[i]...)
+	}
+	root, err := s.tr.Update(s.db, keys, vals)
+	s.record(ops, vals)
+	return root, err
+}
+
+// ---- plans: every discrete choice of a history is made up front (each t.Choice / t.Range is a solver
+// query whose cost grows with the terms already built, and impossible combinations are pruned before
+// any Update runs) ----
+
+// zzPlanSubset: an arbitrary subset of the pool (bit mask, possibly empty) in pool order, as set operations.
+func zzPlanSubset(t *zzT, name string, present []bool) []zzOp {
+	mask := t.Range(name, 0, (1<<uint(len(present)))-1)
+	var ops []zzOp
+	for i := range present {
+		if mask>>uint(i)&1 == 1 {
+			ops = append(ops, zzOp{key: i, kind: 0})
+			present[i] = true
+		}
+	}
+	return ops
+}
+
+// zzPlanBatch: n operations on distinct pool keys; kind 2 only for keys that are present. present is
+// updated to the state after the batch.
+func zzPlanBatch(t *zzT, name string, n int, present []bool) []zzOp {
+	var ops []zzOp
+	used := make([]bool, len(present))
+	for j := 0; j < n; j++ {
+		c := t.Choice(t.Name(name+".key", j), len(present)-j)
+		key := -1
+		for i := range present {
+			if !used[i] {
+				if c == 0 {
+					key = i
+					break
+				}
+				c--
+			}
+		}
+		used[key] = true
+		kinds := 2
+		if present[key] {
+			kinds = 3
+		}
+		ops = append(ops, zzOp{key: key, kind: t.Choice(t.Name(name+".kind", j), kinds)})
+	}
+	for _, op := range ops {
+		present[op.key] = op.kind != 1
+	}
+	return ops
+}
+
+// zzPlanHistory: batches of 1..K operations until T operations are planned.
+func zzPlanHistory(t *zzT, T, K int, present []bool) [][]zzOp {
+	var batches [][]zzOp
 	for b := 1; T > 0; b++ {
 		hi := K
 		if T < hi {
@@ -215,33 +255,408 @@ func (s *zzBuild) history(T, K int) bool {
 		}
 		n := t.Range(t.Name("batch.len", b), 1, hi)
 		T -= n
-		idx, vals := s.batch(t.Name("batch", b), n)
-		root, err := s.update(idx, vals)
-		t.Assert(err == nil, "Update of a later batch succeeds (every stored node that is still referenced is found)")
-		if err != nil {
-			return false
-		}
-		t.Assert(bytes.Equal(root, s.refRoot()), "root after every later batch (set / overwrite / delete / re-set / delete of an absent key) equals the LIP-0039 root of the map")
-		t.Assert(bytes.Equal(root, s.tr.root), "Update returns the root it keeps")
+		batches = append(batches, zzPlanBatch(t, t.Name("batch", b), n, present))
 	}
-	return true
+	return batches
 }
 
-// C10.d build_root: initial batch (any subset of the pool) followed by batches of 1..K operations, T
-// operations in total; the root after EVERY batch equals the reference root of the map at that moment.
+// zzSharesLower: at least two present keys have the first byte of pool[key], i.e. the top subtree
+// holds a stub for a stored lower subtree on the path of that key.
+func zzSharesLower(pool [][]byte, present []bool, key int) bool {
+	n := 0
+	for i := range pool {
+		if present[i] && pool[i][0] == pool[key][0] {
+			n++
+		}
+	}
+	return n >= 2
+}
+
+// zzUnchanging: the batch changes nothing (every operation re-sets the stored value or deletes an
+// absent key) and routes at least one key through a stored lower subtree.
+func zzUnchanging(pool [][]byte, present []bool, ops []zzOp) bool {
+	through := false
+	for _, op := range ops {
+		if !(op.kind == 2 || (op.kind == 1 && !present[op.key])) {
+			return false
+		}
+		if zzSharesLower(pool, present, op.key) {
+			through = true
+		}
+	}
+	return through
+}
+
+// C10.d build_root: the first batch inserts any subset of the pool into the empty trie over a fresh
+// database; then batches of 1..K operations (set / overwrite / delete / re-set of the stored value /
+// delete of an absent key), T operations in total. The root after EVERY batch equals the reference
+// LIP-0039 root of the map at that moment (the empty map gives the empty hash), and every Update
+// succeeds (the stored nodes that are still referenced are found).
 //
-//zz:opt loop=300 require=end sched=0
-//zz:quick P=4 T=2 K=2
-//zz:thorough P=5 T=3 K=2
-func zzH_C10_build_root(t *zzT) {
-	s := zzNewBuild(t)
-	if !s.initial() {
+//zz:opt loop=300 require=end,unchanged-subtree-then-touched sched=0 gor=3000 hashdepth=64
+//zz:quick P=3 T=2 K=1 TAG=1
+//zz:thorough P=4 T=3 K=2 TAG=1 budget=3600s
+func zzH_C10_build_root(t *zzT) { zzBuildRoot(t) }
+
+// C10.d with fully symbolic values (TAG=0): a fresh value may coincide with any value written before,
+// so "the new subtree has the hash of an old one" is reached through the solver as well (every
+// comparison of two node hashes that differ only in values forks). Small bounds, thorough tier only.
+//
+//zz:opt loop=300 require=end,unchanged-subtree-then-touched sched=0 gor=3000 hashdepth=64 tier=thorough
+//zz:thorough P=3 T=2 K=1 TAG=0 budget=3600s
+func zzH_C10_build_root_free(t *zzT) { zzBuildRoot(t) }
+
+func zzBuildRoot(t *zzT) {
+	zzPinEmptyHash(t)
+	pool := zzPoolOf(t)
+	present := make([]bool, len(pool))
+	first := zzPlanSubset(t, "initial.subset", present)
+	before := [][]bool{append([]bool{}, present...)}
+	batches := zzPlanHistory(t, t.Param("T", 2), t.Param("K", 1), present)
+	// presence before each later batch, for the coverage marker
+	{
+		p := append([]bool{}, before[0]...)
+		for _, ops := range batches {
+			for _, op := range ops {
+				p[op.key] = op.kind != 1
+			}
+			before = append(before, append([]bool{}, p...))
+		}
+	}
+
+	s := zzNewBuild(t, &zzValues{t: t})
+	t.Assert(bytes.Equal(s.tr.root, zzRefEmpty()), "a new trie has the empty hash as root")
+	root, err := s.update(first)
+	t.Assert(err == nil && bytes.Equal(root, s.refRoot()), "root after the first batch (any subset of the pool, from the empty trie) equals the LIP-0039 root; the empty map gives the empty hash")
+	if err != nil {
 		return
 	}
-	if !s.history(t.Param("T", 2), t.Param("K", 2)) {
+	touched := false
+	for b, ops := range batches {
+		if b > 0 && zzUnchanging(pool, before[b-1], batches[b-1]) {
+			for _, op := range ops {
+				for _, prev := range batches[b-1] {
+					if pool[op.key][0] == pool[prev.key][0] && zzSharesLower(pool, before[b-1], prev.key) {
+						touched = true
+					}
+				}
+			}
+		}
+		root, err = s.update(ops)
+		t.Assert(err == nil, "Update of a later batch succeeds (every stored node that is still referenced is found)")
+		if err != nil {
+			return
+		}
+		t.Assert(bytes.Equal(root, s.refRoot()), "root after every later batch (set / overwrite / delete / re-set / delete of an absent key) equals the LIP-0039 root of the map")
+		t.Assert(bytes.Equal(root, s.tr.root), "Update returns the root the trie keeps")
+	}
+	if touched {
+		t.Reach("unchanged-subtree-then-touched")
+	}
+	t.Reach("end")
+}
+
+// C10.e order_independence: the map "subset of the pool -> final values" is built twice over
+// separate databases: (A) one batch in pool order; (B) a history that (i) optionally takes the keys in
+// reverse order, (ii) splits them into two batches at an arbitrary point, (iii) optionally writes a
+// temporary value first that a later batch overwrites, (iv) optionally inserts an extra key (not in the
+// map) in the first batch and deletes it again, together with the second batch or in a batch of its
+// own. Both roots are equal (and equal to the reference root).
+//
+//zz:opt loop=300 require=end,extra-key,overwrite sched=0 gor=3000 hashdepth=64
+//zz:quick P=4 TAG=1
+//zz:thorough P=6 TAG=1 budget=3600s
+func zzH_C10_order_independence(t *zzT) {
+	zzPinEmptyHash(t)
+	pool := zzPoolOf(t)
+	present := make([]bool, len(pool))
+	final := zzPlanSubset(t, "final.subset", present)
+	n := len(final)
+	split := t.Range("split", 0, n)
+	reverse := n >= 2 && t.Bool("reverse")
+	// extra key: one of the keys outside the map, or none
+	var outside []int
+	for i := range pool {
+		if !present[i] {
+			outside = append(outside, i)
+		}
+	}
+	extra := -1
+	if c := t.Choice("extra", len(outside)+1); c > 0 {
+		extra = outside[c-1]
+	}
+	ownBatch := extra >= 0 && t.Bool("extra.deletedInOwnBatch")
+	overwrite := split > 0 && t.Bool("overwrite")
+
+	vals := &zzValues{t: t}
+	idx := make([]int, n)
+	fin := make([][]byte, n)
+	for j, op := range final {
+		idx[j], fin[j] = op.key, vals.fresh()
+	}
+
+	// (A) one batch
+	a := zzNewBuild(t, vals)
+	rootA, err := a.setValues(idx, fin)
+	t.Assert(err == nil, "single batch succeeds")
+	if err != nil {
+		return
+	}
+
+	// (B) a history
+	if reverse {
+		for i, j := 0, n-1; i < j; i, j = i+1, j-1 {
+			idx[i], idx[j] = idx[j], idx[i]
+			fin[i], fin[j] = fin[j], fin[i]
+		}
+	}
+	b := zzNewBuild(t, vals)
+	var k1, k2 []int
+	var v1, v2 [][]byte
+	if extra >= 0 {
+		k1, v1 = append(k1, extra), append(v1, vals.fresh())
+	}
+	for j := 0; j < split; j++ {
+		v := fin[j]
+		if overwrite && j == 0 {
+			v = vals.fresh()
+		}
+		k1, v1 = append(k1, idx[j]), append(v1, v)
+	}
+	for j := split; j < n; j++ {
+		k2, v2 = append(k2, idx[j]), append(v2, fin[j])
+	}
+	if overwrite {
+		k2, v2 = append(k2, idx[0]), append(v2, fin[0])
+	}
+	_, err = b.setValues(k1, v1)
+	t.Assert(err == nil, "first batch of the history succeeds")
+	if err != nil {
+		return
+	}
+	if extra >= 0 {
+		if ownBatch {
+			_, err = b.setValues([]int{extra}, [][]byte{{}})
+			t.Assert(err == nil, "the batch deleting the extra key succeeds")
+			if err != nil {
+				return
+			}
+		} else {
+			k2, v2 = append(k2, extra), append(v2, []byte{})
+		}
+	}
+	rootB, err := b.setValues(k2, v2)
+	t.Assert(err == nil, "last batch of the history succeeds")
+	if err != nil {
+		return
+	}
+	t.Assert(bytes.Equal(rootA, rootB), "the same map reached by one batch and by a history (other order, several batches, overwrite, intermediate insert+delete) has the same root")
+	t.Assert(bytes.Equal(rootB, a.refRoot()) && bytes.Equal(b.refRoot(), a.refRoot()), "and that root is the LIP-0039 root of the map")
+	if extra >= 0 {
+		t.Reach("extra-key")
+	}
+	if overwrite {
+		t.Reach("overwrite")
+	}
+	t.Reach("end")
+}
+
+// zzProveVerify: Prove on the trie for the pool keys q (in that order) succeeds, the proof verifies
+// against root, and every query shows what the map says: the stored value for a present key; for an
+// absent key either an empty value under the key itself or another leaf of the map (with its value).
+func zzProveVerify(t *zzT, tr *trie, db *zzMemDB, pool, cur [][]byte, q []int, root []byte) (*Proof, [][]byte, bool) {
+	keys := make([][]byte, len(q))
+	for j, i := range q {
+		keys[j] = append([]byte{}, pool[i]...)
+	}
+	proof, err := tr.Prove(db, keys)
+	t.Assert(err == nil && proof != nil, "Prove succeeds (every stored node on the paths of the query keys is found)")
+	if err != nil || proof == nil {
+		return nil, nil, false
+	}
+	t.Assert(len(proof.Queries) == len(q), "one query per query key")
+	if len(proof.Queries) != len(q) {
+		return nil, nil, false
+	}
+	for j, i := range q {
+		pq := proof.Queries[j]
+		if cur[i] != nil {
+			t.Assert(bytes.Equal(pq.Key, pool[i]) && bytes.Equal(pq.Value, cur[i]), "the query of a present key shows the stored value")
+			continue
+		}
+		if len(pq.Value) == 0 {
+			t.Assert(bytes.Equal(pq.Key, pool[i]), "an empty-value query of an absent key is in its own name")
+			continue
+		}
+		other := -1
+		for o := range pool {
+			if bytes.Equal(pq.Key, pool[o]) {
+				other = o
+			}
+		}
+		t.Assert(other >= 0 && other != i && cur[other] != nil && bytes.Equal(pq.Value, cur[other]), "the query of an absent key shows absence: another leaf of the map with its stored value")
+	}
+	ok, verr := Verify(keys, proof.clone(), root, zzBuildKeyLen)
+	t.Assert(ok && verr == nil, "the generated proof verifies against the root")
+	return proof, keys, true
+}
+
+// C10.f reopen: after the first batch (any subset of the pool) the trie is reopened with
+// NewTrie(latest root, keyLength) over (a copy of) the same database; the next batch applied to the live
+// trie and to the reopened one gives the same root (the reference root); a trie reopened once more at
+// that root proves a query key.
+//
+//zz:opt loop=300 require=end sched=0 gor=3000 hashdepth=64
+//zz:quick P=3 K=1 TAG=1
+//zz:thorough P=4 K=2 TAG=1 budget=3600s
+func zzH_C10_reopen(t *zzT) {
+	zzPinEmptyHash(t)
+	pool := zzPoolOf(t)
+	present := make([]bool, len(pool))
+	first := zzPlanSubset(t, "initial.subset", present)
+	next := zzPlanBatch(t, "batch", t.Range("batch.len", 1, t.Param("K", 1)), present)
+	query := t.Choice("query", len(pool))
+
+	s := zzNewBuild(t, &zzValues{t: t})
+	root0, err := s.update(first)
+	t.Assert(err == nil, "first batch succeeds")
+	if err != nil {
+		return
+	}
+	re := NewTrie(append([]byte{}, root0...), zzBuildKeyLen)
+	dbRe := s.db.clone()
+	keys, vals := s.materialise(next)
+	rootLive, errLive := s.tr.Update(s.db, keys, vals)
+	rootRe, errRe := re.Update(dbRe, keys, vals)
+	s.record(next, vals)
+	t.Assert(errLive == nil && errRe == nil, "the live trie and the reopened trie accept the next batch")
+	if errLive != nil || errRe != nil {
+		return
+	}
+	t.Assert(bytes.Equal(rootLive, rootRe), "a trie reopened at its latest root continues identically")
+	t.Assert(bytes.Equal(rootRe, s.refRoot()), "the continued root is the LIP-0039 root of the map")
+	again := NewTrie(append([]byte{}, rootRe...), zzBuildKeyLen)
+	if _, _, ok := zzProveVerify(t, again, dbRe, pool, s.cur, []int{query}, rootRe); !ok {
 		return
 	}
 	t.Reach("end")
 }
 
-var _ = codec.Hex{}
+// C10.g prove_verify: after the first batch (any subset) and one later batch of 1..K operations, Prove
+// for 1..Q query keys of the pool (present and absent ones; ORDERED=1: every ordered pair, the same key twice included)
+// succeeds and verifies, each query shows what the map says (zzProveVerify), and a claim that disagrees
+// with the map does not verify: another value for a present key, absence of a present key, presence
+// of an absent key, a different root.
+//
+//zz:opt loop=300 require=end,present,absent,stale-root,unchanged-subtree-then-proved sched=0 gor=3000 hashdepth=64
+//zz:quick P=3 K=1 Q=2 ORDERED=0 TAG=1
+//zz:thorough P=5 K=1 Q=2 ORDERED=1 TAG=1 budget=3600s
+func zzH_C10_prove_verify(t *zzT) {
+	zzPinEmptyHash(t)
+	pool := zzPoolOf(t)
+	present := make([]bool, len(pool))
+	first := zzPlanSubset(t, "initial.subset", present)
+	before := append([]bool{}, present...)
+	next := zzPlanBatch(t, "batch", t.Range("batch.len", 1, t.Param("K", 1)), present)
+	nq := t.Range("queries.len", 1, t.Param("Q", 2))
+	q := make([]int, nq)
+	switch {
+	case t.Param("ORDERED", 0) == 1:
+		// thorough: every ordered choice, the same key twice included
+		for j := range q {
+			q[j] = t.Choice(t.Name("query", j), len(pool))
+		}
+	case nq == 1:
+		q[0] = t.Choice("query[0]", len(pool))
+	default:
+		// quick: every unordered pair i < j, queried as (i, j) or (j, i) depending on the pair
+		i := t.Choice("query[0]", len(pool)-1)
+		j := i + 1 + t.Choice("query[1]", len(pool)-1-i)
+		q[0], q[1] = i, j
+		if (i+j)%2 == 1 {
+			q[0], q[1] = j, i
+		}
+	}
+
+	s := zzNewBuild(t, &zzValues{t: t})
+	stale, err := s.update(first)
+	t.Assert(err == nil, "first batch succeeds")
+	if err != nil {
+		return
+	}
+	changed := false
+	for _, op := range next {
+		changed = changed || op.kind == 0 || (op.kind == 1 && s.cur[op.key] != nil)
+	}
+	root, err := s.update(next)
+	t.Assert(err == nil, "second batch succeeds")
+	if err != nil {
+		return
+	}
+	proof, keys, ok := zzProveVerify(t, s.tr, s.db, pool, s.cur, q, root)
+	if !ok {
+		return
+	}
+
+	// claims that disagree with the map, on the first query
+	forged := t.Bytes("forged.value", hashSize)
+	if t.Param("TAG", 0) == 1 {
+		forged[0] = 0xff
+	}
+	if v := s.cur[q[0]]; v != nil {
+		t.Assume(!bytes.Equal(forged, v))
+		bad := proof.clone()
+		bad.Queries[0].Value = forged
+		for j := range q { // a duplicate of the query must carry the same claim, or Verify reports "duplicate query"
+			if q[j] == q[0] {
+				bad.Queries[j].Value = forged
+			}
+		}
+		ok, _ := Verify(keys, bad, root, zzBuildKeyLen)
+		t.Assert(!ok, "no proof verifies for another value of a present key")
+		bad = proof.clone()
+		for j := range q {
+			if q[j] == q[0] {
+				bad.Queries[j].Value = codec.Hex{}
+			}
+		}
+		ok, _ = Verify(keys, bad, root, zzBuildKeyLen)
+		t.Assert(!ok, "no proof verifies for the absence of a present key")
+		t.Reach("present")
+	} else {
+		bad := proof.clone()
+		for j := range q {
+			if q[j] == q[0] {
+				bad.Queries[j].Key = append(codec.Hex{}, pool[q[0]]...)
+				bad.Queries[j].Value = forged
+			}
+		}
+		ok, _ := Verify(keys, bad, root, zzBuildKeyLen)
+		t.Assert(!ok, "no proof verifies for the presence of an absent key")
+		t.Reach("absent")
+	}
+	// different roots: the root before the last batch (when that batch changed the map) and the root of
+	// the map that differs in the first query key (forged value instead of the stored one / of absence)
+	if changed {
+		ok, _ = Verify(keys, proof.clone(), stale, zzBuildKeyLen)
+		t.Assert(!ok, "the proof does not verify against the root of an earlier, different map")
+		t.Reach("stale-root")
+	}
+	saved := s.cur[q[0]]
+	s.cur[q[0]] = forged
+	other := s.refRoot()
+	s.cur[q[0]] = saved
+	ok, _ = Verify(keys, proof.clone(), other, zzBuildKeyLen)
+	t.Assert(!ok, "the proof does not verify against the root of a map that differs in a query key")
+
+	if zzUnchanging(pool, before, next) {
+		for _, i := range q {
+			for _, op := range next {
+				if pool[i][0] == pool[op.key][0] && zzSharesLower(pool, before, op.key) {
+					t.Reach("unchanged-subtree-then-proved")
+				}
+			}
+		}
+	}
+	t.Reach("end")
+}
